@@ -1,6 +1,8 @@
 (* C07 — acquisition optimizers stay in the domain and return the best point they saw.
    Only statements, each closed by `exact`, with Print Assumptions beneath.  Models: LV.Model.Optim, LV.Model.Multistart.
-   af is any deterministic acquisition function, restrict the k-th call of the domain's restriction (it may draw),
+   af is any deterministic acquisition function, possibly undefined at some points (af p = None: the value there is NaN -
+   the code's numpy.nanargmax anticipates exactly that); "highest value" ranges over the points that have a value.
+   restrict is the k-th call of the domain's restriction (it may draw),
    gen the quasi-random generator, dom the (possibly constrained, possibly partially fixed) domain; the only contract
    used is  forall k b, Forall dom (restrict k b)  and  length (restrict k b) = length b. *)
 From Coq Require Import List QArith Bool Arith Qabs.
@@ -9,8 +11,10 @@ Import ListNotations.
 Open Scope Q_scope.
 
 (* Differential evolution, any parameters / starts / draws: every evaluated batch is in the domain; the returned point
-   is the first evaluated point of maximal value and best_value is af of it; it is >= the value at every restricted
-   start; the reported results are the final population, in the domain, with re-evaluable values. *)
+   is the first evaluated point of maximal value among those that have one (first_max: af p = Some v, every defined value
+   before it is smaller, every defined value after it is not larger) and best_value is af of it - a value, never NaN; it is
+   >= the value at every restricted start that has a value; the reported results are the final population, in the domain,
+   with re-evaluable values (NaN where af is undefined). *)
 Theorem C07_de_optimize af restrict gen dom :
   (forall k b, Forall dom (restrict k b)) -> (forall k b, length (restrict k b) = length b) ->
   forall P maxiter selected ds o,
@@ -18,7 +22,7 @@ Theorem C07_de_optimize af restrict gen dom :
   let s := o_state o in
   Forall (Forall dom) (evals s) /\
   (exists p v, best s = Some (p, v) /\ first_max af (concat (evals s)) p v /\
-     (forall q, In q (restrict 0%nat (starting_points gen (de_n P) selected)) -> af q <= v)) /\
+     (forall q w, In q (restrict 0%nat (starting_points gen (de_n P) selected)) -> af q = Some w -> w <= v)) /\
   o_start o = starting_points gen (de_n P) selected /\ o_vals o = map af (o_end o) /\ Forall dom (o_end o) /\
   exists pre, evals s = pre ++ [o_end o].
 Proof. exact (de_optimize_ok af restrict gen dom). Qed.
@@ -32,14 +36,15 @@ Theorem C07_adam_optimize af restrict gen dom :
   let s := o_state o in
   Forall (Forall dom) (evals s) /\
   (exists p v, best s = Some (p, v) /\ first_max af (concat (evals s)) p v /\
-     (forall q, In q (restrict 0%nat (starting_points gen n selected)) -> af q <= v)) /\
+     (forall q w, In q (restrict 0%nat (starting_points gen n selected)) -> af q = Some w -> w <= v)) /\
   o_start o = starting_points gen n selected /\ o_vals o = map af (o_end o) /\ Forall dom (o_end o) /\
   exists pre, evals s = pre ++ [o_end o].
 Proof. exact (fun H1 _ => adam_optimize_ok af restrict gen dom H1). Qed.
 Print Assumptions C07_adam_optimize.
 
 (* After any number of generations the next one keeps the population in the domain and replaces a member only by a
-   point whose value is >= the member's (it equals the best value seen so far). *)
+   point that HAS a value, which is >= the member's if the member has one (it equals the best value seen so far): a trial
+   where af is undefined never enters the population. *)
 Theorem C07_de_no_worse_replacement af restrict gen dom :
   (forall k b, Forall dom (restrict k b)) -> (forall k b, length (restrict k b) = length b) ->
   forall P selected ds1 d s1 s pop s' pop',
@@ -49,9 +54,20 @@ Theorem C07_de_no_worse_replacement af restrict gen dom :
   de_step af restrict P (s, pop) d = Ok (s', pop') ->
   Forall dom pop /\ Forall dom pop' /\ length pop = de_n P /\
   exists bv, option_map snd (best s') = Some bv /\
-    Forall2 (fun old new => new = old \/ (af old <= af new /\ af new == bv)) pop pop'.
+    Forall2 (fun old new => new = old \/
+               exists w, af new = Some w /\ w == bv /\ forall u, af old = Some u -> u <= w) pop pop'.
 Proof. exact (de_no_worse_replacement af restrict gen dom). Qed.
 Print Assumptions C07_de_no_worse_replacement.
+
+(* The bookkeeping step (evaluate_and_monitor) raises exactly when the batch holds no value at all - it is empty or af is
+   undefined at every one of its points (numpy.nanargmax: "All-NaN slice") - and then it raises ValueError; a batch with a
+   single defined value is monitored, whatever else it contains.  So the Ok hypotheses of the theorems above exclude, besides
+   the documented DE preconditions, only runs in which some evaluated batch is undefined throughout. *)
+Theorem C07_monitor_raises_only_without_a_value af s pts :
+  (forall e, monitor af s pts = Err e -> e = ValueError /\ forall q, In q pts -> af q = None) /\
+  (forall q w, pts <> [] -> In q pts -> af q = Some w -> exists s', monitor af s pts = Ok s').
+Proof. exact (conj (monitor_err af s pts) (monitor_defined af s pts)). Qed.
+Print Assumptions C07_monitor_raises_only_without_a_value.
 
 (* Fixed coordinates are re-imposed after every (box) restriction; the free coordinates are those of the clipped point. *)
 Theorem C07_fixed_indices_reimposed lb ub fixed b q k v d :
@@ -162,12 +178,28 @@ Print Assumptions C07_multistart_stops.
 (* non-vacuity: a 3-member best1bin generation on [0,4]^2 with a fixed second coordinate, af = -(x-3)^2, starts inside / outside
    the box, a tie for the best value (the first one is kept) and a replacement by an equally good trial *)
 Example C07_example :
-  let af := fun p : list Q => Qred (- ((nth 0 p 0 - 3) * (nth 0 p 0 - 3))) in
+  let af := fun p : list Q => Some (Qred (- ((nth 0 p 0 - 3) * (nth 0 p 0 - 3)))) in
   let restrict := fun (_ : nat) b => restrict_box [0; 0] [4; 4] [(1%nat, 2)] b in
   match de_optimize af restrict (fun _ => []) (mkde 3 2 true (1#2) 1) 1 (Some [[0; 0]; [5; 1]; [2; 9]])
           [([(0, 1, 0); (1, 0, 0); (0, 1, 1)]%nat, [[0; 0]; [0; 0]; [0; 0]])] with
   | Ok o => best (o_state o) = Some ([4; 2], -1) /\ evals (o_state o) = [[[0; 2]; [4; 2]; [2; 2]]; [[4; 2]; [4; 2]; [2; 2]]; [[4; 2]; [4; 2]; [2; 2]]]
             /\ o_end o = [[4; 2]; [4; 2]; [2; 2]]
+  | Err _ => False
+  end.
+Proof. vm_compute. repeat split. Qed.
+
+(* non-vacuity with undefined values: the same run with af undefined where x0 > 3.  The start [5;1] is clipped to [4;2], where
+   af is undefined (it would have been the maximiser): it is evaluated, never becomes the incumbent and keeps its place in the
+   population; the best is [2;2] with value -1; the trials of members 0 and 1 land on [4;2] (undefined) and do NOT replace
+   [0;2] resp. [4;2], the trial [0;2] of member 2 is worse than the best; the reported values carry None at the undefined member. *)
+Example C07_example_undefined :
+  let af := fun p : list Q => if Qltb 3 (nth 0 p 0) then None else Some (Qred (- ((nth 0 p 0 - 3) * (nth 0 p 0 - 3)))) in
+  let restrict := fun (_ : nat) b => restrict_box [0; 0] [4; 4] [(1%nat, 2)] b in
+  match de_optimize af restrict (fun _ => []) (mkde 3 2 true 2 1) 1 (Some [[0; 0]; [5; 1]; [2; 9]])
+          [([(0, 1, 0); (1, 0, 0); (0, 1, 1)]%nat, [[0; 0]; [0; 0]; [0; 0]])] with
+  | Ok o => best (o_state o) = Some ([2; 2], -1) /\
+            evals (o_state o) = [[[0; 2]; [4; 2]; [2; 2]]; [[4; 2]; [4; 2]; [0; 2]]; [[0; 2]; [4; 2]; [2; 2]]]
+            /\ o_end o = [[0; 2]; [4; 2]; [2; 2]] /\ o_vals o = [Some (-9); None; Some (-1)]
   | Err _ => False
   end.
 Proof. vm_compute. repeat split. Qed.
